@@ -21,8 +21,15 @@ TOLERANT = {"children", "children_r", "parent", "parents", "is_running", "str", 
 
 
 def ids(seed):
+    seed = seed % 1000
     o = (seed % 5) * 11
     return dict(Q=200 + o, P=300 + o, C=400 + o, U=450 + o, T1=1301 + o, T2=1302 + o)
+
+
+def variant(seed):
+    """seeds >= 1000 encode a variant of the subject: 1 = no smaps_rollup for this process (ENOENT -> smaps fallback),
+    2 = kernel without smaps_rollup, 3 = minimal subject (one thread, no descriptors, no mappings)"""
+    return seed // 1000
 
 
 def mk_world(seed, pre=None):
@@ -52,6 +59,11 @@ def mk_world(seed, pre=None):
     w.set_file("/proc/net/tcp", tcp + b"   0: 0100007F:0016 00000000:0000 0A 00000000:00000000 00:00000000 00000000     0        0 5001 1 0000 100 0 0 10 0\n")
     ux = w.nodes["/proc/net/unix"].data
     w.set_file("/proc/net/unix", ux + b"0000000000000000: 00000002 00000000 00010000 0001 01 5002 /run/sock\n")
+    v = variant(seed)
+    if v == 1:
+        p.rollup = False
+    elif v == 3:
+        p.threads, p.fds, p.maps = None, {}, []
     if pre:
         for pid, dev in pre:
             apply_dev(w, dev, None, None, pid, persistent=True)
@@ -139,6 +151,7 @@ def run_plan(seed, op, who, plan, pre=None, post_check=True):
     n = ids(seed)
     w = mk_world(seed, pre)
     use_world(w)
+    psutil._pslinux.HAS_PROC_SMAPS_ROLLUP = variant(seed) != 2
     obj = None
     if who is not None:
         try:
@@ -400,6 +413,19 @@ def run(ctx):
                                                "parent", "m:memory_full_info", "conn:all", "m:ppid"):
                     b = 2      # quick: pairs only for the short, fallback-rich operations
                 tasks.append((seed, op, who, (i, d), b))
+    if ctx.thorough:
+        vops = [(op, who) for op, who in ops if op in ("m:memory_full_info", "m:memory_maps", "m:memory_percent", "memory_percent:uss",
+                                                      "as_dict", "m:threads", "m:open_files", "m:num_fds", "conn:all", "iter:all")]
+        for v in (1, 2, 3):
+            vs = seed % 1000 + 1000 * v
+            for op, who in vops:
+                base = run_plan(vs, op, who, ())
+                if base.outcome[0] != "ok":
+                    continue
+                tasks.append((vs, op, who, None, 0))
+                for i in range(len(base.accesses)):
+                    for d in alts_for(base, i):
+                        tasks.append((vs, op, who, (i, d), 2))
     results = ctx.pmap(task, tasks, chunk=4)
     viols, nruns, distinct = [], 0, set()
     per_op = {}
